@@ -280,6 +280,40 @@ def matches_over(body, adt_suffix):
             t = re.sub(r"^'\w+ ", "", t)
             if is_adt(t, adt_suffix):
                 out.append(n)
+                continue
+            # a match on a tuple one component of which has the type: the same match seen through that component's patterns
+            if t.startswith("(") and t.endswith(")"):
+                parts = [re.sub(r"^'\w+ ", "", x.strip().lstrip("&").replace("mut ", "").strip()) for x in _split_top(t[1:-1])]
+                for i, pt in enumerate(parts):
+                    if is_adt(pt, adt_suffix):
+                        arms = []
+                        for a in n["arms"]:
+                            q = a["pat"]
+                            while q.get("p") in ("Ref", "Deref", "Box"):
+                                q = q["pat"]
+                            if q.get("p") == "Tuple" and len(q.get("pats", [])) == len(parts):
+                                arms.append(dict(a, pat=q["pats"][i]))
+                            else:
+                                arms.append(dict(a, pat={"p": "Wild"}))
+                        out.append(dict(n, arms=arms, projected=i))
+    return out
+
+
+def _split_top(s):
+    """split a type list at top-level commas"""
+    out, depth, cur = [], 0, ""
+    for ch in s:
+        if ch in "<([":
+            depth += 1
+        elif ch in ">)]":
+            depth -= 1
+        if ch == "," and depth == 0:
+            out.append(cur)
+            cur = ""
+        else:
+            cur += ch
+    if cur.strip():
+        out.append(cur)
     return out
 
 
